@@ -162,5 +162,7 @@ theorem refinesU2 (k0 k1 : Nat) : Refines (kindU2 k0 k1) (kindSpec false false [
   indexes := mrEnum_eq _
   keys := rfl
   len := by simp [kindU2, kindSpec, prodDims]
+  resumeIdx := mrResume_eq _
+  resumeKeys := rfl
 
 end SLV.MArr
